@@ -187,7 +187,7 @@ Definition sig_spec_at (c : sig_case) (now : Z) : bool :=
     let adm := sig_accept (mac_of c) (sha_of c) (sc_tol c) now (sc_q c) in
     if adm then
       (* accepted: the handler runs (behind the body decryption when the request announces one) *)
-      (* ... only bodies ABOVE the size limit are refused; an admitted one is handed over decrypted *)
+      (* ... only bodies ABOVE the size limit are refused; an accepted one is handed over decrypted *)
       if sc_enc c then
         Bool.eqb (sc_ran c) (negb (enc_body_limit <? r_clen (sc_req c)) && match sc_decbody c with DecOk => true | _ => false end) &&
         (negb (sc_ran c) || (sc_seen c =? 1)%N)
